@@ -1,4 +1,5 @@
 SPECIFICATION Spec
 CHECK_DEADLOCK FALSE
 INVARIANT TypeOK
+INVARIANT GenAgree
 INVARIANT Emit
